@@ -5,8 +5,8 @@ from C17 import v_src, v_coq
 
 ID = "C18"
 GEN = []
-THEOREMS = ["C18_bind", "C18_refuted_both", "C18_refuted_splat_dup", "C18_refuted_only_named",
-            "C18_resplat_duplicate", "C18_positional", "C18_too_many", "C18_unknown_named", "C18_missing", "C18_dash_underscore",
+THEOREMS = ["C18_bind", "C18_refuted_only_named",
+            "C18_duplicate", "C18_positional", "C18_too_many", "C18_unknown_named", "C18_missing", "C18_dash_underscore",
             "C18_first_return"]
 COQ_HEADER = ("From Coq Require Import String List ZArith NArith.\n"
               "From RV Require Import Model.EvValue Model.EvArgs Run.C18.\n"
@@ -294,7 +294,7 @@ def coq_term(c, io):
     return f"(mkCase {input_term(c)} {impl_term(io)})"
 
 
-KCLASS = {0: None, 1: "known_C18_K1_both_with_rest", 2: "known_C18_K2_map_splat_override", 3: "known_C18_K3_only_named"}
+KCLASS = {0: None, 3: "known_C18_K3_only_named"}
 
 
 def judge(c, io, r):
@@ -324,11 +324,10 @@ def shrink(c):
         yield dict(c, sig=dict(sig, rest=None))
 
 
-LEVEL_TEXT = ("proof: C18_bind - for ALL signatures and calls outside three input classes found by the proof (keyword repeating a "
-              "positionally bound parameter when a rest parameter exists; map-splat entry repeating an explicit keyword; lone keyword "
-              "named like the rest parameter) the model of CallArgs::evaluate + FormalArgs::eval equals the reference binder; refuted "
-              "witnesses for each class; error theorems (too many / unknown / missing), -/_ equivalence, first @return; the model is tied "
+LEVEL_TEXT = ("proof: C18_bind - for ALL signatures and calls outside one input class found by the proof (lone keyword "
+              "named like the rest parameter; the two other classes of the first version were fixed in rsass by 09ccabb / 5cd805f) the model of CallArgs::evaluate + FormalArgs::eval equals the reference binder; refuted "
+              "witness for the class; error theorems (too many / unknown / missing), -/_ equivalence, first @return; the model is tied "
               "to rsass by exact-output correspondence on generated signatures x calls")
 LEVEL_NOTE = ("trusted: Coq kernel+vm_compute, the harness, Spec/SassArgs.v, the inspect printer and the SCSS printer; "
-              "@content/using and closures are not modelled here (closures: see C16); known findings: the three classes")
+              "@content/using and closures are not modelled here (closures: see C16); known finding: only_named (F32)")
 TECHNIQUE = "Coq proof (list induction, invariants on ordered maps) + differential correspondence on generated SCSS programs"
